@@ -105,6 +105,10 @@ pub struct SecondaryStorage {
 
     /// Indexes of the current storage engine
     indexes: Mutex<InMemoryIndexes>,
+
+    /// Serializes CREATE TABLE and DROP TABLE: each of them updates the catalog and the
+    /// manifest in two steps that must not interleave with another DDL statement.
+    ddl_lock: Mutex<()>,
 }
 
 impl SecondaryStorage {
